@@ -171,9 +171,18 @@ def main(tier):
     DS_EXPR = ["20", "6", "100", "2+2", "d4", "面数"]
     FACELESS = ["3d + d", "d", "2d + 1", "d优势", "d劣势 + 2d", "func f(){ 2d }; f() + d", "&c = d; c + c", "[d, 2d, d].sum()", "`{d} {3d}`"]
     lines, meta = [], []
-    for _ in range(120 if tier == "thorough" else 40):
+    for _ in range(160 if tier == "thorough" else 60):
         k = r.random()
-        if k < 0.6:
+        if k < 0.25:
+            # the SAME text again after an edit that changes what the text means: it is read anew under the configuration of now
+            SENS = [("w", "2a5 + 1"), ("w", "3a8k6 + 2a5"), ("c", "b2 + 1"), ("c", "p1 + b"), ("f", "4f + 1"), ("f", "f + f"), ("d", "3c2 + 1"),
+                    ("B", "6|1"), ("B", "[7&3, 1|2]"), ("N", "2d + 1"), ("N", "3d + d4"), ("S", "`{% if 1 { 7 } else { 8 } %}`"), ("wcfd", "2a5 + 4f + b2 + 3c2")]
+            fl, p = r.choice(SENS)
+            q = p
+            cfg1, cfg2 = ("-", fl) if r.random() < 0.5 else (fl, "-")
+            if r.random() < 0.4:
+                cfg1, cfg2 = cfg1 + ",M", cfg2 + ",M"
+        elif k < 0.6:
             e1, e2 = r.sample(DS_EXPR, 2)
             cfg1, cfg2 = "D" + hx(e1), "D" + hx(e2)
             p, q = r.choice(FACELESS), r.choice(FACELESS)
